@@ -398,9 +398,8 @@ pub fn run(prop: &str, tier: &str, only: Option<String>) -> i32 {
     let sel = run.only.clone();
     let stats = par_items(
         &its,
-        Some(if thorough { 20_000 } else { 10_000 }),
+        Some(bridge::rt::hang_limit()),
         &|it: &Item| {
-            println!("VIOLATION property={prop} replay=/verif/replays/{prop}-hang.json");
             println!("  hang while exploring type {} (values {}..)", it.e.name, it.vals[0].0);
         },
         &|it: &Item, st: &mut Stats| {
